@@ -330,6 +330,110 @@ let run_nfl a =
       Printf.sprintf "%sn=%s e=%s P=%s B=%s" sd (ZZ.to_string c) (if acc_is_empty acc then "1" else "0")
         (show_ds peaks) (hex (bag_peaks h hash0 peaks).s)
 
+
+(* ------------------------------------------------------------------ synthetic accumulators
+   An MMR with n leafs of which only the chosen ones exist: a block without a chosen leaf has a fresh atom as
+   root, the others are hashed from their children (same construction as in the harness).  The tree of a leaf
+   is found with the SPECIFICATION's locate. *)
+let two64 = ZZ.shift_left ZZ.one 64
+let fresh a t = atom (ZZ.erem (ZZ.add (ZZ.add (ZZ.mul a (zi 128)) (zi t)) (zi 5000000)) two64)
+let rec syn_value idx leaves a t =
+  let inside = List.filter (fun (i, _) -> ZZ.equal (ZZ.shift_right i t) a) (List.combine idx leaves) in
+  match inside with
+  | [] -> fresh a t
+  | (_, l) :: _ ->
+      if t = 0 then l
+      else h (syn_value idx leaves (ZZ.mul a (zi 2)) (t - 1))
+             (syn_value idx leaves (ZZ.add (ZZ.mul a (zi 2)) ZZ.one) (t - 1))
+let syn_peaks n idx leaves =
+  let out = ref [] and offset = ref ZZ.zero in
+  for k = 63 downto 0 do
+    let p = ZZ.shift_left ZZ.one k in
+    if not (ZZ.equal (ZZ.logand n p) ZZ.zero) then begin
+      out := syn_value idx leaves (ZZ.shift_right !offset k) k :: !out;
+      offset := ZZ.add !offset p
+    end
+  done;
+  List.rev !out
+let syn_path n idx leaves i =
+  let ((_, hh), _) = locate n i in
+  List.init (ZZ.to_int hh) (fun t -> syn_value idx leaves (ZZ.logxor (ZZ.shift_right i t) ZZ.one) t)
+let show_long l = let x = show_ds l in if List.length l > 32 then "#" ^ fnv x else x
+let show_tracked idx leaves mps peaks n =
+  if idx = [] then "-"
+  else String.concat ";" (List.map2 (fun (i, l) mp ->
+           Printf.sprintf "%s:%s:%s" (ZZ.to_string i) (show_long mp) (vd (mp_verify h deq mp i l peaks n)))
+         (List.combine idx leaves) mps)
+let all_verify idx leaves mps peaks n =
+  List.for_all2 (fun (i, l) mp -> mp_verify h deq mp i l peaks n = Some true) (List.combine idx leaves) mps
+let flag b = if b then "1" else "0"
+
+let run_syn a =
+  let n = zs (List.nth a 0) in
+  let idx = zlist (List.nth a 1) in
+  let op = List.nth a 2 in
+  let leaves = List.mapi (fun k _ -> atom (zi (2000000 + k))) idx in
+  let peaks = syn_peaks n idx leaves in
+  let mps = List.map (syn_path n idx leaves) idx in
+  let acc = (n, peaks) in
+  let sd ok what = if ok then "" else "SPECDIFF(" ^ what ^ ") " in
+  try
+    match op with
+    | "v" ->
+        sd (all_verify idx leaves mps peaks n) "verify"
+        ^ Printf.sprintf "P=%s T=%s" (show_long peaks) (show_tracked idx leaves mps peaks n)
+    | "a" ->
+        let leaf = atom (zi 77) in
+        let single = List.map2 (fun i mp -> get (update_from_append h mp i n leaf peaks)) idx mps in
+        let (batch, modified) = get (batch_update_from_append h mps idx n leaf peaks) in
+        let ((n', np), new_mp) = get (acc_append h acc leaf) in
+        let sproofs = List.map fst single in
+        let same = List.for_all2 list_deq sproofs batch in
+        (* specification: the proof changes iff the leaf's tree is merged, i.e. all bits of n up to the tree's
+           height are set *)
+        let expect_changed = List.map (fun i ->
+            let ((_, hh), _) = locate n i in
+            ZZ.equal (ZZ.erem (ZZ.add n ZZ.one) (ZZ.shift_left ZZ.one (ZZ.to_int hh + 1))) ZZ.zero) idx in
+        let flags_ok = List.for_all2 (fun (_, b) e -> b = e) single expect_changed in
+        let md_ok = List.equal ZZ.equal modified
+            (List.concat (List.mapi (fun p e -> if e then [zi p] else []) expect_changed)) in
+        let newleaf_ok = mp_verify h deq new_mp n leaf np n' = Some true in
+        sd (all_verify idx leaves sproofs np n' && flags_ok && md_ok && same && newleaf_ok) "append"
+        ^ Printf.sprintf "n=%s P=%s F=%s X=%s S=%s N=%s T=%s" (ZZ.to_string n') (show_long np)
+            (if single = [] then "-" else String.concat "," (List.map (fun (_, b) -> flag b) single))
+            (show_zs modified) (flag same) (show_long new_mp) (show_tracked idx leaves sproofs np n')
+    | "m" ->
+        let newleaf = atom (zi 88) in
+        let lm = ((List.hd idx, newleaf), List.hd mps) in
+        let (rest, modified) = get (batch_update_from_leaf_mutation h deq mps idx lm) in
+        let single = List.map2 (fun i mp -> get (update_from_leaf_mutation h mp i lm)) idx mps in
+        let (_, np) = get (acc_mutate_leaf h acc lm) in
+        let nl = newleaf :: List.tl leaves in
+        let expected = syn_peaks n idx nl in
+        let same = List.for_all2 list_deq (List.map fst single) rest in
+        sd (all_verify idx nl rest np n && list_deq np expected && same) "mutate"
+        ^ Printf.sprintf "P=%s E=%s F=%s X=%s S=%s T=%s" (show_long np) (flag (list_deq np expected))
+            (String.concat "," (List.map (fun (_, b) -> flag b) single)) (show_zs modified) (flag same)
+            (show_tracked idx nl rest np n)
+    | "b" | "w" | "wx" ->
+        let nl = List.mapi (fun k _ -> atom (zi (90 + k))) idx in
+        let lms = List.map2 (fun (i, l) mp -> ((i, l), mp)) (List.combine idx nl) mps in
+        let expected = syn_peaks n idx nl in
+        if op = "b" then begin
+          let (((_, np), tracked), modified) = get (batch_mutate_leaf_and_update_mps h deq acc mps idx lms) in
+          sd (all_verify idx nl tracked np n && list_deq np expected) "batch"
+          ^ Printf.sprintf "P=%s E=%s X=%s T=%s" (show_long np) (flag (list_deq np expected)) (show_zs modified)
+              (show_tracked idx nl tracked np n)
+        end else begin
+          let apps = [atom (zi 77)] in
+          let ((_, e2), _) = get (acc_append h (n, expected) (List.hd apps)) in
+          let e2 = if op = "wx" && e2 <> [] then take (List.length e2 - 1) e2 @ [atom (zi 999999)] else e2 in
+          let r = verify_batch_update h deq acc e2 apps lms in
+          sd (r = Some (op = "w")) "vbu" ^ Printf.sprintf "w=%s" (vd r)
+        end
+    | _ -> "UNKNOWN-OP"
+  with Panic -> "PANIC"
+
 let run op a =
   match op with
   | "hist" -> run_hist a
@@ -337,6 +441,7 @@ let run op a =
   | "vfy" -> run_vfy a
   | "succ" -> run_succ false a
   | "succs" -> run_succ true a
+  | "syn" -> run_syn a
   | _ -> "UNKNOWN-OP"
 
 let () =
